@@ -767,8 +767,9 @@ def run_number_print(ex):
     return me, outs
 
 
-def number_print_spec(ctx, kinds, lo, hi, what):
+def number_print_spec(ctx, kinds, lo, hi, what, relerr=False):
     ex = new_exec("real")
+    ex.relerr = relerr
     me, outs = run_number_print(ex)
     ctx.part.functions.append("compiler::number::print")
     ctx.paths += len(outs)
@@ -794,7 +795,7 @@ def number_print_spec(ctx, kinds, lo, hi, what):
             v = evs[0][1][0]
             if not isinstance(v, IntV):
                 raise Unsupported("formatted value is not an integer")
-            rp = ("m_replay_number_print", [(ex.discr("NumberType", k), "u8"), (x, "f64")])
+            rp = ("m_replay_number_print_margin" if relerr else "m_replay_number_print", [(ex.discr("NumberType", k), "u8"), (x, "f64")])
             ctx.claim(ex, o.path.add(cond), v.t == n, what % k, rp)
     if seen != set(kinds):
         ctx.failures.append(("NumberItem::print: kinds without a path: %s" % sorted(set(kinds) - seen), {}, None))
@@ -1384,6 +1385,77 @@ def report_shapes(ctx, results, keep):
 def _(ctx):
     res = expression_spec(ctx, 4, wellformed_to=6, sample_to=8, sample_n=320)
     report_shapes(ctx, res, lambda r: r["wf"])
+
+
+def check_nested(depth):
+    """worker: ((( ... (x + y) ... ))) * z at the given nesting depth"""
+    from engine_m import run_deep
+
+    def body():
+        ex = new_exec("real", feas_ms=2000)
+        ex.max_depth, ex.max_steps = 100000, 100000
+        shape = "(" * depth + "n+n" + ")" * depth + "*n"
+        res = {"depth": depth, "status": "pass", "detail": "", "paths": 0, "values": None}
+        for o, xs in run_expression(ex, shape):
+            res["paths"] += 1
+            s_ = z3.Solver()
+            s_.set("timeout", 20000)
+            for c in ex.domain + ex.assumptions + list(o.path.pc):
+                s_.add(c)
+            got = result_number(o) if o.kind == "return" else None
+            if got is None:
+                if s_.check() == z3.sat:
+                    res.update(status="fail", detail="%d nested parentheses: the expression %s" % (depth, "panics: " + o.msg if o.kind == "panic" else "is rejected / does not evaluate to a number"), values=["1", "2", "3"])
+                    return res
+                continue
+            s_.add(got.t != (xs[0] + xs[1]) * xs[2])
+            r = s_.check()
+            if r == z3.sat:
+                m = s_.model()
+                res.update(status="fail", detail="%d nested parentheses: the value is not (x + y) * z" % depth, values=[str(m.eval(x, model_completion=True)) for x in xs])
+                return res
+            if r == z3.unknown:
+                res.update(status="unknown", detail="depth %d undecided" % depth)
+        if not res["paths"]:
+            res.update(status="fail", detail="%d nested parentheses: no outcome" % depth, values=["1", "2", "3"])
+        return res
+    try:
+        return run_deep(body)
+    except Unsupported as e:
+        return {"depth": depth, "status": "unsupported", "detail": str(e)[:200], "paths": 0, "values": None}
+    except Exception as e:  # noqa: BLE001
+        return {"depth": depth, "status": "unsupported", "detail": ("%s: %s" % (type(e).__name__, e))[:200], "paths": 0, "values": None}
+
+
+def nested_spec(ctx, depths):
+    import multiprocessing as mp
+    from engine_m import mir, to_f64, f64_bytes
+    mir()
+    with mp.Pool(min(16, mp.cpu_count())) as pool:
+        results = pool.map(check_nested, depths, chunksize=1)
+    ctx.part.functions += ["syntax::primative::PrimativeParser::parse_parenthesis", "syntax::SyntaxParser::parse", "compiler::Interpreter::execute"]
+    ctx.part.sample = {"nesting_depths": list(depths)}
+    for r in results:
+        ctx.paths += r["paths"]
+        ctx.part.queries += max(1, r["paths"])
+        if r["status"] == "unknown":
+            ctx.unknown.append(r["detail"])
+        elif r["status"] == "fail":
+            vals = [f64_bytes(to_f64(v)) for v in (r["values"] or ["1", "2", "3"])]
+            ctx.failures.append((r["detail"], {"depth": r["depth"]}, ("m_replay_nested", [[r["depth"] % 256]] + vals)))
+    uns = [r for r in results if r["status"] == "unsupported"]
+    if uns and not ctx.failures:
+        raise Unsupported("depth %d refused: %s" % (uns[0]["depth"], uns[0]["detail"]))
+
+
+@spec("C02", "m_nested_parentheses", "parentheses nested 9, 17, 33 and 40 deep around x + y, times z, through the real glue, parser ladder and interpreter (MIR, operands symbolic): the value is (x + y) * z - grouping works at depths far beyond the exhaustive sweep's token bound", tiers=("quick",))
+def _(ctx):
+    nested_spec(ctx, [9, 17, 33, 40])
+
+
+@spec("C02", "m_nested_parentheses_all", "every nesting depth 1..48, then 64 and 100", tiers=("thorough",))
+def _(ctx):
+    nested_spec(ctx, list(range(1, 49)) + [64, 100])
 
 
 @spec("C02", "m_expression_shapes_8", "same for EVERY well-formed expression of <= 8 tokens (16 124 shapes) plus every token list of <= 5 tokens", tiers=("thorough",))
@@ -2028,11 +2100,11 @@ def c03_programs(max_len, with_prefix=True):
                     yield pr
 
 
-def c03_spec(ctx, max_len):
+def c03_spec(ctx, max_len, keep=None):
     import multiprocessing as mp
     from engine_m import mir
     mir()
-    todo = list(c03_programs(max_len))
+    todo = [t for t in c03_programs(max_len) if keep is None or keep(t)]
     with mp.Pool(min(16, mp.cpu_count())) as pool:
         results = pool.map(check_program, todo, chunksize=4)
     ctx.part.functions += ["variable::update_token_variables", "types::find_location", "tokinizer::Tokinizer::token_generator", "tokinizer::Tokinizer::token_cleaner",
@@ -2169,6 +2241,52 @@ def rule_application(ctx, prop):
 @spec("C04", "m_rule_application_immutable", "rule_tokinizer with one API rule over a matching line (MIR, rule decision symbolic): neither applying nor declining the rule writes into the calculator's own pattern tokens (shared Rc<TokenInfo>), so evaluating text never changes the calculator")
 def _(ctx):
     rule_application(ctx, "C04")
+
+
+@spec("C18", "m_api_rule_two_patterns", "rule_tokinizer with one API rule that has two patterns, '{NUMBER:n} foo' and 'foo {NUMBER:m}', over the tokens  a foo b : the rule declines the match of its first pattern and accepts the match of its second (it decides by the fields it is handed) - the line must end as  a <returned token> : a declined pattern does not stop the rule's other patterns from being tried")
+def _(ctx):
+    ex = new_exec("real", feas_ms=2000)
+    lr = LineRunner(ex)
+    tfields, cfields = lr.tfields, struct_fields("src/config.rs", "SmartCalcConfig")
+    tk = SymV(ex, "tokinizerR2", "tokinizer::Tokinizer")
+    a, b, r = ex.fsym("a"), ex.fsym("b"), ex.fsym("r")
+    rule = models.RuleObjV("two", lambda flds: z3.BoolVal(isinstance(flds, MapC) and "m" in flds.d), EnumV("TokenType", "Number", [r, EnumV("NumberType", "Decimal", [])]))
+    p1 = [field_token("NUMBER", "n"), tinfo(0, "foo", EnumV("TokenType", "Text", [StrV("foo")]))]
+    p2 = [tinfo(0, "foo", EnumV("TokenType", "Text", [StrV("foo")])), field_token("NUMBER", "m")]
+    rules = VecV([EnumV("RuleType", "API", [VecV([VecV(p1), VecV(p2)]), RefV(rule)])])
+    line = [tinfo(0, "1", EnumV("TokenType", "Number", [a, EnumV("NumberType", "Decimal", [])])),
+            tinfo(2, "foo", EnumV("TokenType", "Text", [StrV("foo")])),
+            tinfo(6, "2", EnumV("TokenType", "Number", [b, EnumV("NumberType", "Decimal", [])]))]
+    st = {
+        (tk.path, tfields.index("token_infos")): VecV(line),
+        (tk.path, tfields.index("tokens")): VecV([]),
+        (tk.path, tfields.index("ui_tokens")): OpaqueV("ui_tokens"),
+        (tk.path, tfields.index("language")): StrV("en"),
+        (tk.path, tfields.index("config")): RefV(lr.cfgv),
+        (tk.path, tfields.index("session")): RefV(lr.sess),
+        (lr.cfgv.path, cfields.index("rule")): MapC({"en": rules}),
+    }
+    outs = list(ex.run(find_fn("rule_tokinizer"), [RefV(tk)], Path(stores=st)))
+    ctx.part.functions += ["tokinizer::rule_tokinizer::rule_tokinizer", "tokinizer::rule_tokinizer::find_match"]
+    ctx.paths += len(outs)
+    rp = ("k_replay_api_rule2", [])
+    n = 0
+    for o in outs:
+        if o.kind == "panic":
+            ctx.reachable(ex, o.path, "rule_tokinizer can panic: " + o.msg, rp)
+            continue
+        ctx.part.queries += 1
+        n += 1
+        infos = o.path.stores[(tk.path, tfields.index("token_infos"))].items
+        status = lambda t: (o.path.stores.get((t.path, 4), t.f[4])).variant
+        active = [t for t in infos if status(t) == "Active"]
+        calls = [e for e in o.path.events if e[0] == "rule_call"]
+        tt = active[1].f[2].f[0] if len(active) == 2 else None
+        ok = len(active) == 2 and active[0] is line[0] and isinstance(tt, EnumV) and tt.variant == "Number" and tt.f[0] is r
+        if not ok:
+            ctx.failures.append(("after the rule declined the match of its first pattern, the match of its second pattern is not applied (%d rule calls, %d active tokens)" % (len(calls), len(active)), {}, rp))
+    if not n:
+        ctx.failures.append(("no outcome", {}, None))
 
 
 @spec("C18", "m_api_rule_effect", "rule_tokinizer with one API rule '{NUMBER:n} foo' over the tokens  a foo b  (MIR, rule decision and values symbolic): a match calls the rule with its fields bound by name and replaces exactly the matched span by the returned token; a declining rule leaves the line as if the rule were absent; the pattern tokens are never modified")
@@ -3193,16 +3311,20 @@ WIRING = {
     # property -> [(label, token line, expected rule function, {field name: index of the line token bound to it})]
     # line tokens: N number, P percent, M money, D date, T time, DT date-time, U duration, Z time zone, Q unit quantity, words / operators literally
     "C06": [("M to code", ["M", "to", "eur"], "convert_money", {"money": 0, "currency": 2}),
-            ("M code", ["M", "eur"], "convert_money", {"money": 0, "currency": 1})],
+            ("M code", ["M", "eur"], "convert_money", {"money": 0, "currency": 1}),
+            ("M TO code (keyword case)", ["M", "TO", "eur"], "convert_money", {"money": 0, "currency": 2})],
     "C09": [("D to D", ["D", "to", "D"], "to_duration", {"source": 0, "target": 2}),
             ("D at N", ["D", "at", "N"], "at_date", {"source": 0, "time": 2})],
     "C10": [("N hours", ["N", "hours"], "duration_parse", {"duration": 0, "type": 1}),
+            ("N Hours (keyword case)", ["N", "Hours"], "duration_parse", {"duration": 0, "type": 1}),
+            ("U AS hours (keyword case)", ["U", "AS", "hours"], "as_duration", {"source": 0, "type": 2}),
             ("U U", ["U", "U"], "combine_durations", {"1": 0, "2": 1}),
             ("U U U", ["U", "U", "U"], "combine_durations", {"1": 0, "2": 1, "3": 2}),
             ("U as hours", ["U", "as", "hours"], "as_duration", {"source": 0, "type": 2}),
             ("U in days", ["U", "in", "days"], "as_duration", {"source": 0, "type": 2})],
     "C11": [("T Z", ["T", "Z"], "time_with_timezone", {"time": 0, "timezone": 1}),
             ("T to Z", ["T", "to", "Z"], "convert_timezone", {"time": 0, "timezone": 2}),
+            ("T In Z (keyword case)", ["T", "In", "Z"], "convert_timezone", {"time": 0, "timezone": 2}),
             ("DT in Z", ["DT", "in", "Z"], "convert_timezone", {"time": 0, "timezone": 2}),
             ("T to T", ["T", "to", "T"], "to_duration", {"source": 0, "target": 2}),
             ("T as hours", ["T", "as", "hours"], "as_duration", {"source": 0, "type": 2})],
@@ -3210,9 +3332,11 @@ WIRING = {
             ("Q in unit", ["Q", "in", "km"], "dynamic_type_convert", {"source": 0, "type": 2})],
     "C13": [("N to hex", ["N", "to", "hex"], "number_type_convert", {"number": 0, "type": 2}),
             ("N binary", ["N", "binary"], "number_type_convert", {"number": 0, "type": 1}),
+            ("N TO HEX (keyword case)", ["N", "TO", "HEX"], "number_type_convert", {"number": 0, "type": 2}),
             ("N as octal", ["N", "as", "octal"], "number_type_convert", {"number": 0, "type": 2})],
     "C14": [("N to date", ["N", "to", "date"], "from_unixtime", {"number": 0}),
             ("N date", ["N", "date"], "from_unixtime", {"number": 0}),
+            ("N To Date (keyword case)", ["N", "TO", "Date"], "from_unixtime", {"number": 0}),
             ("N to Z", ["N", "to", "Z"], "from_unixtime", {"number": 0, "timezone": 2}),
             ("D as unix", ["D", "as", "unix"], "to_unixtime", {"data": 0, "type": 2}),
             ("DT to unixtime", ["DT", "to", "unixtime"], "to_unixtime", {"data": 0, "type": 2}),
@@ -3221,7 +3345,7 @@ WIRING = {
 
 
 WIRING_KINDS = ["N", "P", "M", "D", "T", "DT", "U", "Z", "Q"]
-WIRING_WORDS = ["to", "as", "in", "at", "eur", "hours", "days", "km", "hex", "binary", "octal", "date", "unix", "unixtime"]
+WIRING_WORDS = ["to", "as", "in", "at", "eur", "hours", "days", "km", "hex", "binary", "octal", "date", "unix", "unixtime", "TO", "HEX", "Hours", "Date", "AS", "In"]
 # kind of the single token a rule leaves behind (index into WIRING_KINDS; 255 = not fixed), used by the native witness
 WIRING_RESULT_KIND = {"convert_money": 2, "to_duration": 6, "at_date": 5, "duration_parse": 6, "combine_durations": 6, "time_with_timezone": 4,
                       "dynamic_type_convert": 8, "number_type_convert": 0, "from_unixtime": 5, "to_unixtime": 0}
@@ -3391,9 +3515,9 @@ def _(ctx):
             ctx.reachable(ex, o.path, "update_currency can panic: " + o.msg, rp)
             continue
         ret = o.value if z3.is_expr(o.value) else z3.BoolVal(bool(o.value))
-        ov = o.path.stores.get((rates.path, "overrides")) or []
+        ov = models.map_overrides(o.path, rates)
         # any other store into the configuration is a change of the calculator beyond the rate table
-        other = [k for k in o.path.stores if k[0].startswith(cfgv.path) and k != (rates.path, "overrides")]
+        other = [k for k in o.path.stores if k[0].startswith(cfgv.path) and k[0] != rates.path]
         if other:
             ctx.failures.append(("update_currency writes into the configuration outside the rate table: %s" % other[:3], {}, None))
             continue
@@ -3477,11 +3601,14 @@ LITERAL_PARSERS = {
 }
 
 
-def run_literal(parser, ts, ds, chars, radix_group=None):
+def run_literal(parser, ts, ds, chars, radix_group=None, radix=10):
     """the parser on one regex match whose number group is the written text `chars`; returns (ex, outs, captures)"""
     import re as _re4
     ex = new_exec("real")
     models.install_number_tokeniser(ex)
+    for c in chars:
+        if c[0] == "d" and not z3.is_int_value(c[1]):
+            ex.domain.append(z3.And(c[1] >= 0, c[1] < radix))
     group = LITERAL_PARSERS[parser][0]
 
     def h_add(ex_, name, args, path, depth, caller):
@@ -3554,7 +3681,8 @@ def literal_job(job):
             note = z3.If(z3.And(hn, note == 0), z3.IntVal(9), note)
         label = "%s%s%s under (thousands %r, decimal %r)" % (sign, ts.join("d" * g for g in groups), (ds + "d" * frac) if frac else "", ts, ds)
         gs = list(groups) + [0] * (3 - len(groups))
-        rp = ("m_replay_number_literal", [(0 if ts == "," else 1, "u8"), ({"": 0, "-": 1, "+": 2}[sign], "u8"), (len(groups), "u8")] + [(g, "u8") for g in gs] + [(frac, "u8")]
+        conv = {(",", "."): 0, (".", ","): 1, ("", "."): 2, ("", ","): 3}[(ts, ds)]
+        rp = ("m_replay_number_literal", [(conv, "u8"), ({"": 0, "-": 1, "+": 2}[sign], "u8"), (len(groups), "u8")] + [(g, "u8") for g in gs] + [(frac, "u8")]
               + [(d, "u8") for d in digits] + [(d, "u8") for d in fr] + [(note, "u8"), (list(LITERAL_PARSERS).index(parser), "u8")])
         seen_token = False
         for o in outs:
@@ -3580,7 +3708,7 @@ def literal_job(job):
     return {"failures": ctx.failures, "unknown": ctx.unknown, "paths": ctx.paths, "queries": ctx.part.queries, "solver_s": ctx.part.solver_s, "ok": n_ok}
 
 
-def number_literal_spec(ctx, parsers=("number_regex_parser",)):
+def number_literal_spec(ctx, parsers=("number_regex_parser",), wide=False):
     import itertools
     import multiprocessing as mp
     from engine_m import mir as _mir
@@ -3589,10 +3717,12 @@ def number_literal_spec(ctx, parsers=("number_regex_parser",)):
     for parser in parsers:
         ctx.part.functions.append("tokinizer::regex_tokinizer::" + parser)
         shapes = list(itertools.product(("", "-", "+"), ((1,), (3,), (1, 3), (2, 3, 3)), (0, 1, 3)))
-        if parser != "number_regex_parser":
+        if wide:
+            shapes = list(itertools.product(("", "-", "+"), ((1,), (2,), (3,), (1, 3), (2, 3), (3, 3), (1, 3, 3), (2, 3, 3), (3, 3, 3)), (0, 1, 2, 3)))
+        if parser != "number_regex_parser" and not wide:
             shapes = [sh for sh in shapes if sh[1] in ((1,), (1, 3), (2, 3, 3)) and sh[0] in ("", "-")]
-        for (ts, ds) in ((",", "."), (".", ",")):
-            jobs += [(parser, ts, ds) + sh for sh in shapes]
+        for (ts, ds) in ((",", "."), (".", ","), ("", "."), ("", ",")):
+            jobs += [(parser, ts, ds) + sh for sh in shapes if ts or len(sh[1]) == 1]
     with mp.Pool(min(16, mp.cpu_count())) as pool:
         results = pool.map(literal_job, jobs, chunksize=2)
     n_ok = 0
@@ -3606,7 +3736,7 @@ def number_literal_spec(ctx, parsers=("number_regex_parser",)):
         ctx.part.queries += r["queries"]
         ctx.part.solver_s += r["solver_s"]
         n_ok += r["ok"]
-    ctx.part.sample = {"written_shapes": len(jobs), "conventions": ["',' groups '.' decimal", "'.' groups ',' decimal"]}
+    ctx.part.sample = {"written_shapes": len(jobs), "conventions": ["',' groups '.' decimal", "'.' groups ',' decimal", "no grouping '.' decimal", "no grouping ',' decimal"]}
     if "number_regex_parser" in parsers:
         # translator validation: the encoding at the concrete literal -12.345,67 (',' decimal), suffix k
         text = "-12.345,67"
@@ -3658,7 +3788,7 @@ def literal_totality(ctx):
         for ln in lens:
             digits = [z3.Int("r_%d" % i) for i in range(ln)]
             chars = [("d", d) for d in digits]
-            ex, outs, cap = run_literal("number_regex_parser", ",", ".", chars, radix_group=grp)
+            ex, outs, cap = run_literal("number_regex_parser", ",", ".", chars, radix_group=grp, radix=radix)
             for d in digits:
                 ex.domain.append(z3.And(d >= 0, d < radix))
             ctx.paths += len(outs)
@@ -3763,3 +3893,295 @@ def _(ctx):
     ctx.part.sample = {"decided": n, "left_to_engine_D": skipped}
     if not n:
         ctx.failures.append(("nothing was executed", {}, None))
+
+
+
+# ============================================================================ C01 / C09: '<date> at <hour or time>'
+@spec("C01", "m_at_date", "at_date (MIR -> SMT; fields: a date and a number or a time, as its pattern binds them): no panic for ANY number (an hour outside 0..23 must be declined), and the result is the date-time 'that date at that hour / that time' in the date's zone")
+def _(ctx):
+    ex, fields, toks, args, cfgv, tkv = setup_rule("at_date", "real")
+    outs, _ = run_fn(ex, "date_rules::at_date", args)
+    ctx.part.functions += ["date_rules::at_date", "tokinizer::tools::get_number_or_time"]
+    ctx.paths += len(outs)
+    src, tm = toks["source"], toks["time"]
+    d, _dz = tz_fields(src, "Date")
+    n_ok = 0
+    x = fval(tm, "Number").t
+    rp = ("m_replay_at_date", [(tag_is(ex, tm, "Number"), "bool"), (x, "f64")])
+    for o in outs:
+        if o.kind == "panic":
+            ctx.reachable(ex, o.path, "at_date can panic: " + o.msg, rp)
+            continue
+        if is_err(o):
+            # declining is right only for a number that is no hour of the day
+            ctx.claim(ex, o.path, z3.And(tag_is(ex, tm, "Number"), z3.Or(x < 0, x >= 24)), "at_date declines a time or an hour 0..23", rp)
+            continue
+        variant, f = ok_payload(o)
+        if variant != "DateTime":
+            ctx.failures.append(("at_date returns a %s" % variant, {}, None))
+            continue
+        n_ok += 1
+        got = f[0]
+        if ex.feasible(o.path, tag_is(ex, tm, "Number")):
+            hour = z3.ToInt(x)
+            ctx.claim(ex, o.path.add(z3.And(tag_is(ex, tm, "Number"), x >= 0)), z3.And(hour < 24, got.total() == d.days * 86400 + hour * 3600),
+                      "'<date> at N' is not that date at N o'clock (0 <= N < 24)", rp)
+        if ex.feasible(o.path, tag_is(ex, tm, "Time")):
+            tv, _tz = tz_fields(tm, "Time")
+            ctx.claim(ex, o.path.add(tag_is(ex, tm, "Time")), got.total() == d.days * 86400 + tv.secs, "'<date> at <time>' is not that date at that time of day", rp)
+    if not n_ok:
+        ctx.failures.append(("at_date has no Ok path", {}, None))
+
+
+
+def _reuse(prop, name):
+    """the body of an already registered spec (the same check speaks about two properties)"""
+    from engine_m import SPECS
+    for sp in SPECS:
+        if sp.prop == prop and sp.name == name:
+            return sp.fn
+    raise Unsupported("spec %s/%s not registered" % (prop, name))
+
+
+@spec("C14", "m_parse_timezone_gmt", "parse_timezone registered for C14 as well: 'N to GMT+-h:mm' is shown in the requested zone only if the zone's offset is sign * (60 h + mm) minutes")
+def _(ctx):
+    _reuse("C11", "m_parse_timezone_gmt")(ctx)
+
+
+@spec("C13", "m_radix_print_fp_margin", "NumberItem::print of Binary / Octal / Hexadecimal numbers with every float operation of the code carrying a relative rounding error <= 2^-53 (sound over-approximation of double arithmetic): the integer handed to the formatter is N for every 2^31 <= N <= 2^53 - so no rounding helper may push an exactly representable integer to its neighbour")
+def _(ctx):
+    number_print_spec(ctx, ["Binary", "Octal", "Hexadecimal"], 2 ** 31, 2 ** 53, "the %s print of N (with floating-point rounding of the code's own arithmetic) does not show N", relerr=True)
+
+
+
+@spec("C04", "m_session_keeps_variables", "one session, lines evaluated one after the other (the straight-line programs of C03, here those of <= 3 lines that contain a line failing in the parser or in the interpreter, through the real variable machinery from MIR): a line that fails - also a failing re-assignment of a bound name - leaves every variable of the session as it was, later lines see the kept values")
+def _(ctx):
+    sts = c03_statements()
+    failing = {i for i, st in enumerate(sts) if st[2] in ("fail", "evalfail")}
+    c03_spec(ctx, 3, keep=lambda prog: any(i in failing for i in prog))
+
+
+
+# ============================================================================ C04: evaluation writes nothing into the calculator
+def struct_field_types(src_rel, struct):
+    """[(name, type text)] of a struct, in declaration order, parsed from the source"""
+    import os
+    import common
+    text = open(os.path.join(common.REPO, src_rel), errors="replace").read()
+    m = _re.search(r"struct\s+%s\s*(?:<[^>]*>)?\s*\{(.*?)\n\}" % struct, text, _re.S)
+    if not m:
+        raise Unsupported("struct %s not found in %s" % (struct, src_rel))
+    out = []
+    for line in m.group(1).split("\n"):
+        fm = _re.match(r"\s*(?:pub(?:\([a-z]+\))?\s+)?(\w+)\s*:\s*(.+?),?\s*$", line)
+        if fm and not line.strip().startswith("//"):
+            out.append((fm.group(1), fm.group(2).strip()))
+    return out
+
+
+def unit_object(tag, index):
+    """a unit description (config::DynamicType) as the loader builds it: fields by declared type, the index concrete"""
+    vals = []
+    for name, ty in struct_field_types("src/config.rs", "DynamicType"):
+        t = ty.replace(" ", "")
+        if name == "index":
+            vals.append(IntV(index, 64, False))
+        elif t in ("String", "alloc::string::String"):
+            vals.append(StrV(z3.String("%s.%s" % (tag, name))))
+        elif t.startswith("Vec<"):
+            vals.append(VecV([]))
+        elif t.startswith("Option<"):
+            vals.append(EnumV("Option", "None", []))
+        elif t.startswith("Cell<Option<") or t.startswith("core::cell::Cell<Option<"):
+            vals.append(EnumV("Option", "None", []))       # a cell is its content plus recorded stores
+        elif t.startswith("Cell<") or t.startswith("RefCell<"):
+            vals.append(OpaqueV("cell " + name))
+        else:
+            vals.append(OpaqueV(name))
+    return StructV("DynamicType", vals)
+
+
+@spec("C04", "m_unit_conversion_writes_nothing", "DynamicTypeItem::calculate_unit over a chain of three unit descriptions owned by the configuration (MIR; the program evaluation basic_execute is an uninterpreted stub), both directions, every symbolic amount: no store is made into the unit descriptions or any other object of the configuration - converting a quantity leaves the calculator as it was, so a later conversion cannot depend on an earlier one")
+def _(ctx):
+    n = 0
+    for (a, b) in ((1, 3), (3, 1), (1, 2)):
+        ex = new_exec("real")
+        cnt = [0]
+
+        def h_basic(ex_, name, args, path, depth, caller):
+            cnt[0] += 1
+            yield execmir_Outcome("return", path.event(("basic_execute", [models.deref(x) for x in args])),
+                                  EnumV("Result", "Ok", [FloatV(z3.Real("converted%d" % cnt[0]), z3.BoolVal(False))]))
+
+        def h_loc(ex_, name, args, path, depth, caller):
+            yield execmir_Outcome("return", path, StrV(z3.String("code%d" % cnt[0])))
+        ex.handlers.insert(0, (_re.compile(r"^(smartcalc::)?SmartCalc::basic_execute::<.*>$"), h_basic))
+        ex.handlers.insert(0, (_re.compile(r"(^|::)localize_code$"), h_loc))
+        cfgv = SymV(ex, "config", "config::SmartCalcConfig")
+        units = {i: unit_object("unit%d" % i, i) for i in (1, 2, 3)}
+        x = ex.fsym("x")
+        fn = find_fn("calculate_unit")
+        ctx.part.functions.append("compiler::dynamic_type::DynamicTypeItem::calculate_unit")
+        owned = {u.path for u in units.values()}
+        for o in ex.run(fn, [RefV(cfgv), x, units[a], units[b], RefV(MapC(dict(units)))], Path()):
+            ctx.paths += 1
+            ctx.part.queries += 1
+            n += 1
+            if o.kind == "panic":
+                ctx.reachable(ex, o.path, "calculate_unit can panic: " + o.msg)
+                continue
+            touched = sorted({str(k) for k in o.path.stores if k[0] in owned or str(k[0]).startswith(cfgv.path)})
+            if touched and ex.feasible(o.path):
+                ctx.failures.append(("converting a quantity writes into the calculator's own unit descriptions (%s): later evaluations depend on earlier ones" % touched[:2], {}, ("k_replay_unit_history", [])))
+    if not n:
+        ctx.failures.append(("calculate_unit: nothing executed", {}, None))
+
+
+
+# ============================================================================ operands held by variables (the Variable arm of the field getters)
+VARIABLE_GETTERS = [
+    # (getter, item kind, takes config, what a variable holding that item must be read as)
+    ("get_number", "NumberItem", False, lambda p: [("f", p.field(0, "f64").t)]),
+    ("get_percent", "PercentItem", False, lambda p: [("f", p.field(0, "f64").t)]),
+    ("get_duration", "DurationItem", False, lambda p: [("dur", p.field(0, "chrono::TimeDelta").secs)]),
+    ("get_time", "TimeItem", False, lambda p: [("dt", p.field(0, "chrono::NaiveDateTime").total()), ("off", p.field(1, "types::TimeOffset").field(1, "i32").t)]),
+    ("get_date", "DateItem", False, lambda p: [("date", p.field(0, "chrono::NaiveDate").days), ("off", p.field(1, "types::TimeOffset").field(1, "i32").t)]),
+    ("get_date_time", "DateTimeItem", False, lambda p: [("dt", p.field(0, "chrono::NaiveDateTime").total()), ("off", p.field(1, "types::TimeOffset").field(1, "i32").t)]),
+    ("get_money", "MoneyItem", True, lambda p: [("f", p.field(0, "f64").t), ("cur", p.field(1, "Rc<types::CurrencyInfo>").id)]),
+]
+
+
+def variable_operands(ctx):
+    n_ok = 0
+    for getter, kind, takes_cfg, want_of in VARIABLE_GETTERS:
+        ex = new_exec("real")
+        fields = models.FieldsV(ex)
+        held = SymV(ex, "held", "payload")
+        var = StructV("VariableInfo", [VecV([]), EnumV("SmartCalcAstType", "Item", [ItemV(kind, held)])])
+        fields.tok["f"] = tinfo(0, "v", EnumV("TokenType", "Variable", [var]))
+        ex.assumptions.append(fields.has_key("f"))
+        fields.closed = {"f"}
+        cfgv = SymV(ex, "config", "config::SmartCalcConfig")
+        fn = find_fn("tools::" + getter)
+        ctx.part.functions.append("tokinizer::tools::" + getter)
+        args = ([RefV(cfgv)] if takes_cfg else []) + [StrV("f"), RefV(fields)]
+        want = want_of(held)
+        for o in ex.run(fn, args, Path()):
+            ctx.paths += 1
+            if o.kind == "panic":
+                ctx.reachable(ex, o.path, "%s can panic on a variable holding a %s: %s" % (getter, kind, o.msg))
+                continue
+            v = o.value
+            if not (isinstance(v, EnumV) and v.enum == "Option" and v.variant == "Some"):
+                ctx.reachable(ex, o.path, "%s does not read a variable that holds a %s" % (getter, kind))
+                continue
+            got = models.deref(v.f[0])
+            parts = got.f if isinstance(got, (TupleV, StructV)) else [got]
+            if isinstance(parts, dict):
+                parts = [parts[i] for i in sorted(parts)]
+            terms = []
+            for (k, _w), g in zip(want, parts):
+                g = models.deref(g)
+                if k == "f":
+                    terms.append(g.t)
+                elif k == "dur":
+                    terms.append(g.secs)
+                elif k == "dt":
+                    terms.append(g.total())
+                elif k == "date":
+                    terms.append(g.days)
+                elif k == "off":
+                    terms.append((g.field(1, "i32") if isinstance(g, SymV) else g.f[1]).t)
+                elif k == "cur":
+                    terms.append(g.id)
+            if len(terms) != len(want):
+                raise Unsupported("%s returned %r" % (getter, got))
+            rp = ("m_replay_variable_operand", [(VARIABLE_GETTERS.index((getter, kind, takes_cfg, want_of)), "u8")])
+            if ctx.claim(ex, o.path, z3.And([t == w for t, (_k, w) in zip(terms, want)]), "%s reads a variable holding a %s differently from the %s it holds (value, zone / currency)" % (getter, kind, kind), rp) == "unsat":
+                n_ok += 1
+    if not n_ok and not ctx.failures:
+        ctx.failures.append(("no getter decided", {}, None))
+
+
+@spec("C14", "m_variable_operands", "the field getters of the rule functions (get_number, get_percent, get_duration, get_time, get_date, get_date_time, get_money; MIR): a field bound to a VARIABLE that holds an item is read as exactly the value, zone / currency of that item - so 'a = N to ZONE' followed by 'a as unix' converts the instant that was stored, and every rule function sees through variables what it sees in literals")
+def _(ctx):
+    variable_operands(ctx)
+
+
+@spec("C03", "m_variable_operands", "same check registered for C03: a binding holds the value (number, percentage, money, duration, time, date, date-time) that later lines read back through the field getters")
+def _(ctx):
+    variable_operands(ctx)
+
+
+
+# ============================================================================ C18: a user-defined unit is recognised in a line (dynamic_type_tokinizer)
+@spec("C18", "m_unit_recognition", "dynamic_type_tokinizer (MIR) with a user-defined family of two units whose parse patterns are '{NUMBER:value} foo' and '{NUMBER:value} bar': the line  x foo  becomes the quantity (x, unit foo) - for a number literal and equally for a VARIABLE that holds the number x - and a line without a unit word is left alone; the unit descriptions are not written")
+def _(ctx):
+    n = 0
+    for held_by_variable in (False, True):
+        for word, idx in (("foo", 1), ("bar", 2), ("baz", None)):
+            ex = new_exec("real", feas_ms=2000)
+            ex.max_steps = 4000
+            lr = LineRunner(ex)
+            tfields, cfields = lr.tfields, struct_fields("src/config.rs", "SmartCalcConfig")
+            dnames = [n_ for n_, _t in struct_field_types("src/config.rs", "DynamicType")]
+            units = {}
+            for i, w in ((1, "foo"), (2, "bar")):
+                u = unit_object("unit%d" % i, i)
+                u.f[dnames.index("parse")] = VecV([VecV([field_token("NUMBER", "value"), tinfo(0, w, EnumV("TokenType", "Text", [StrV(w)]))])])
+                u.f[dnames.index("group_name")] = StrV("fam")
+                units[i] = u
+            x = ex.fsym("x")
+            num = EnumV("TokenType", "Number", [x, EnumV("NumberType", "Decimal", [])])
+            if held_by_variable:
+                var = StructV("VariableInfo", [VecV([]), EnumV("SmartCalcAstType", "Item", [ItemV("NumberItem", {0: x, 1: EnumV("NumberType", "Decimal", [])})])])
+                first = tinfo(0, "v", EnumV("TokenType", "Variable", [var]))
+            else:
+                first = tinfo(0, "1", num)
+            line = [first, tinfo(2, word, EnumV("TokenType", "Text", [StrV(word)]))]
+            tk = SymV(ex, "tokinizerU", "tokinizer::Tokinizer")
+            st = {
+                (tk.path, tfields.index("token_infos")): VecV(line),
+                (tk.path, tfields.index("tokens")): VecV([]),
+                (tk.path, tfields.index("ui_tokens")): OpaqueV("ui_tokens"),
+                (tk.path, tfields.index("language")): StrV("en"),
+                (tk.path, tfields.index("config")): RefV(lr.cfgv),
+                (tk.path, tfields.index("session")): RefV(lr.sess),
+                (lr.cfgv.path, cfields.index("types")): MapC({"fam": MapC(dict(units))}),
+            }
+            what = "%s %s" % ("a variable holding x," if held_by_variable else "the number x,", word)
+            rp = ("k_replay_unit_recognition", [(1 if held_by_variable else 0, "u8")])
+            rpr = ("k_replay_unit_recognition", [[1 if held_by_variable else 0]])
+            for o in ex.run(find_fn("dynamic_type_tokinizer"), [RefV(tk)], Path(stores=st)):
+                ctx.paths += 1
+                ctx.part.queries += 1
+                n += 1
+                if o.kind == "panic":
+                    ctx.reachable(ex, o.path, "dynamic_type_tokinizer can panic on (%s): %s" % (what, o.msg), rp)
+                    continue
+                infos = o.path.stores[(tk.path, tfields.index("token_infos"))].items
+                status = lambda t: (o.path.stores.get((t.path, 4), t.f[4])).variant
+                active = [t for t in infos if status(t) == "Active"]
+                written = sorted({str(k) for k in o.path.stores if k[0] in {u.path for u in units.values()}})
+                if written:
+                    ctx.failures.append(("recognising a unit writes into the calculator's unit descriptions %s" % written[:2], {}, rpr))
+                    continue
+                if idx is None:
+                    if len(active) != 2 or active[0] is not line[0]:
+                        ctx.failures.append(("a line without a unit word (%s) is rewritten" % what, {}, rpr))
+                    continue
+                tt = models.deref(active[0].f[2].f[0]) if len(active) == 1 else None
+                ok = isinstance(tt, EnumV) and tt.variant == "DynamicType" and models.deref(tt.f[1]) is units[idx]
+                if not ok:
+                    ctx.failures.append(("the line (%s) is not recognised as a quantity of the user-defined unit %s (active tokens: %d)" % (what, word, len(active)), {}, rpr))
+                    continue
+                ctx.claim(ex, o.path, tt.f[0].t == x.t, "the quantity recognised from (%s) does not carry the amount x" % what, rp)
+    ctx.part.functions.append("tokinizer::dynamic_type_tokinizer::dynamic_type_tokinizer")
+    if not n:
+        ctx.failures.append(("nothing executed", {}, None))
+
+
+
+@spec("C08", "m_literals_wide", "the reading kernels of all three literal tokenisers on every written shape of sign x {1,2,3 | 1,3 | 2,3 | 3,3 | 1,3,3 | 2,3,3 | 3,3,3 digits} x {0..3 fraction digits} under the four separator conventions", tiers=("thorough",))
+def _(ctx):
+    number_literal_spec(ctx, ("number_regex_parser", "percent_regex_parser", "money_regex_parser"), wide=True)
